@@ -59,9 +59,13 @@ SeenTours == {Strip(R.it[t].tours[k]) : t \in 1..l, k \in Ants}
 (* ---- C12: the pheromone matrix of the instance ---- *)
 M_Init == (l = 0 /\ \E a, b \in Nodes : Abs(R.pher0[a][b] - 50000) > 2) => Fail("initial-pheromone")
 M_Weights == (InIter /\ \E k \in Ants : Abs(Cur.wL[k] - Cur.w[k]) > WTol) => Fail("deposit-weight")
+\* the library's own weights: within [0, Q], and an ant that is worse (beyond float noise) never deposits more.  Ants whose
+\* rewards differ by rounding only (the same cycle walked from another start node) are NOT compared: (r - m) / (M - m) is
+\* discontinuous at a tie, so one of them may deposit Q and the other nothing.
 M_WeightShape ==
    (InIter /\ ~(\A k, j \in Ants : /\ Cur.wL[k] >= 0 /\ Cur.wL[k] <= R.q8 + WTol
-                                   /\ (Cur.rewL[k] <= Cur.rewL[j] => Cur.wL[k] <= Cur.wL[j]))) => Fail("deposit-weight-monotone-in-reward")
+                                   /\ (Cur.rewL[k] < Cur.rewL[j] - RTol(Cur.rewL[j]) => Cur.wL[k] <= Cur.wL[j] + WTol)))
+     => Fail("deposit-weight-monotone-in-reward")
 M_PherOwn ==
    (InIter /\ \E a, b \in Nodes : /\ <<a - 1, b - 1>> \notin OwnEdges
                                   /\ Abs(Cur.pher[a][b] - Decay(Prev[a][b])) > PTol(Prev[a][b])) => Fail("pheromone-only-from-own-ants")
